@@ -933,6 +933,8 @@ def _vkey(case):
 def component(tier='quick', seed=0, known=()):
     warnings.simplefilter('ignore')
     descs = shapes(tier, seed)
+    for slot in (0, 1):
+        slow_key('rsa2048', slot)           # generated once here; the forked workers inherit the octets
     nproc = min(16, os.cpu_count() or 1)
     nchunks = nproc * 4
     chunks = [descs[i::nchunks] for i in range(nchunks)]
